@@ -189,6 +189,10 @@ def run_check(prop: str, tier: str, seed: int, replay: str | None = None) -> int
         printed += 1
     if new:
         print(f"[{prop}] {len(new)} violating cases; by mechanism: {seen_mech}")
+    if os.environ.get("VERIF_DUMP"):
+        with open(os.environ["VERIF_DUMP"], "w") as f:
+            for v in total["violations"]:
+                f.write(json.dumps({"mechanism": v.get("mechanism"), "summary": v.get("summary")}, default=str) + "\n")
 
     wall = time.time() - t0
     # ---- evidence ------------------------------------------------------------------------
